@@ -852,7 +852,9 @@ impl<B: ScopedBitRead> UperReader<B> {
         f: F,
     ) -> Result<T, Error> {
         let write_position = self.bits.pos() + (length_bytes * BYTE_LEN);
-        let write_original = core::mem::replace(&mut self.bits.len(), write_position);
+        // limit the visible length to the sub-slice for the call
+        let write_original = self.bits.len();
+        self.bits.set_len(write_position);
         let result = f(self);
         // extend to original position
         let len = self.bits.set_len(write_original);
